@@ -2408,10 +2408,9 @@ namespace igris
                 return *this;
 
             clear();
-            m_size = other.m_size;
-            for (igris::size_t pos = 0; pos < m_size; ++pos)
+            for (igris::size_t pos = 0; pos < other.m_size; ++pos)
             {
-                new (&_data[pos]) T(other[pos]);
+                push_back(other[pos]);
             }
             return *this;
         }
@@ -2422,10 +2421,9 @@ namespace igris
                 return *this;
 
             clear();
-            m_size = other.m_size;
-            for (igris::size_t pos = 0; pos < m_size; ++pos)
+            for (igris::size_t pos = 0; pos < other.m_size; ++pos)
             {
-                new (&_data[pos]) T(igris::move(other[pos]));
+                emplace_back(igris::move(other[pos]));
             }
             other.clear();
             return *this;
